@@ -25,6 +25,7 @@ EXPLANATION = (
     "branch and the sync runner are guarded by an interrupt-reachability predicate that is closed under nesting. (R8) the PauseExecution handler of run() filters the values computed before the pause with the non-raising default policy, so a pause always yields the PAUSED result. R4 also requires that the 'None means pause' test is applied to the handler's resolved answer (awaited when awaitable on every path before it is compared); (R9) the pause description is built in the graph's name space (qualifier inference over the interrupt executor)."
     " R4 also requires that under 'exactly one data output' the function turning the handler's response into outputs reaches no raise and returns {output: response} verbatim — the resume path stores the supplied value as it is, so a dict answer is an answer, not a name-to-value mapping. (R10) in the interrupt-capable superstep the node cache is consulted and written only outside the executor's resume condition (every data output present in state.values, node not executed, interrupt nodes only): a supplied response is neither shadowed by a cached one nor stored as one."
     " (R11) storing the object that is already stored under a name never advances its version (under 'old is new' no version write is reachable in update_value): a resumed interrupt re-emits the caller's own object."
+    " R4 also requires that the state initialiser stores every provided value unconditionally: the resume decision is read from the state, and an interrupt's own output may have no consumer at all."
 )
 NOT_DECIDED = "That pause followed by resume ends exactly as the auto-resolved run (a statement about computed values and histories); ordering of several interrupts beyond 'one per step'."
 
